@@ -189,10 +189,10 @@ K('c09_encode_bytes_n', TD, 'Types::encode_value (bytesN arm)', {'C09': Q, 'C08'
 K('c08_encode_bool', TD, 'Types::encode_value (bool arm)', {'C08': Q}, 'bool encodes as the 32-byte word 0 / 1', complete=True, module='verif_kani2')
 K('c08_encode_bytes_dynamic', TD, 'Types::encode_value (bytes arm)', {'C08': Q},
   'dynamic bytes encode as Keccak-256 of exactly the payload (Digest::of as recording callee contract), payloads of 0..40 bytes', complete=False, bound='payload <= 40 bytes', replay='none', module='verif_kani2')
-N('nb_eip712_type_graphs_vs_reference', TD, 'TypedData (encode_type, struct_hash, encode_value, compute)', {'C08': Q},
+N('nb_eip712_type_graphs_vs_reference', TD, 'TypedData (encode_type, struct_hash, encode_value, compute)', {'C08': Q, 'C17': Q},
   'signing digest, domain separator and message hash equal a reference EIP-712 implementation written from the standard (dependency closure exactly once in name order, primary never repeated, member encodings, arrays, nested structs)',
   'native: 4368 member lists (1..=3 members over 16 kinds incl. struct refs, nested/fixed arrays, recursive P[]) x 5 helper-struct graphs (independent, chains, shared/repeated deps, mutual recursion) = 21840 documents with conforming values')
-N('nb_eip712_nonconforming_values_refused', TD, 'TypedData value conformance', {'C09': Q, 'C08': Q},
+N('nb_eip712_nonconforming_values_refused', TD, 'TypedData value conformance', {'C09': Q, 'C08': Q, 'C17': Q},
   'a document is refused exactly when the reference says a value is not a value of its declared type; accepted documents hash to the reference value',
   'native: all 32 widths x 8 range boundaries x uintN/intN x number/decimal/hex/float spellings; bytesN N-1,N,N+1 for N=1..32; fixed arrays size-1,size,size+1 (size 0..3, also nested); 16 JSON kinds x 12 type kinds; missing/undeclared members (also for member-less structs); each offending value also nested inside a struct inside an array (about 3700 documents)')
 N('nb_domain_types_enumerated', TD, 'TypedDataBlob::verify_domain_type / compute', {'C20': Q},
@@ -250,6 +250,12 @@ N('nb_tx_json_number_spellings', TXN, 'transaction field deserialization', {'C13
   'every spelling of an integer denotes the same value and gives the identical encoding; negative, fractional, inexact, >= 2^256, empty and non-numeric spellings are refused; bytes need 0x + even hex; addresses 20 bytes; storage keys 32 bytes; legacy chain ids beyond 2^255-19 refused',
   'native: 16 numeric fields x 14 integers x up to 6 spellings; 30 malformed spellings per field; 12 byte/address and 7 access-list malformations per kind')
 
+# C20 — domain type check under contract (bounded by member count and name length, content symbolic)
+for _n in range(0, 7):
+    K(f'c20_domain_members_{_n}', 'src/typeddata.rs', 'TypedDataBlob::verify_domain_type', {'C20': Q if _n <= 2 else T, 'C17': T},
+      f'verify_domain_type on a domain type of {_n} members (Types::type_definition as recording callee contract: asked for "EIP712Domain" exactly once): Ok iff the members are a non-empty, order-preserving, duplicate-free selection of name:string, version:string, chainId:uint256, verifyingContract:address, salt:bytes32 with exactly those types; never panics',
+      complete=False, bound=f'{_n} members; each name any ASCII string of 3, 4, 7 or 17 bytes (the lengths of the five standard names and one other length), each type any of String, Uint(n), Int(n), Address, Bytes(Some(n)), Bytes(None), Bool, Struct, String[], Uint(n)[n] with n any u32',
+      replay='none', timeout=1800, module='verif_kani3')
 # ---------------------------------------------------------------------------
 # bin crate: C16 key selection, C18 vanity prefix, C19 hex; process-level native stand-ins
 CMD, NEW, CLI = 'src/cmd.rs', 'src/cmd/new.rs', 'tests/verif_native_cli.rs'
@@ -350,10 +356,11 @@ PROPS = {
                 technique='bounded stand-in: native differential against a reference EIP-712 implementation written from the standard; Kani contracts only on the atomic word encoders',
                 claim='BOUNDED, not proved: on 21840 enumerated type graphs (1..3 members over 16 kinds, 5 dependency-graph shapes including shared, repeated, self- and mutually-recursive references through arrays) with conforming values the three digests equal the reference implementation; the member type grammar is enumerated (55590 strings). Proved by Kani: the 32-byte word layout of uintN / intN / bytesN / bool and bytes = keccak(payload).',
                 note='encode_type (work list over HashMap/BTreeMap + write!), struct_hash (serde_json::Map) and compute could not be brought within reach of either verifier: Verus has no model of these collections or of serde, CBMC does not terminate on serde_json::Value drop glue / BTreeMap even with every callee stubbed (probed, see DESIGN.md). Keccak-256 is a dependency in both the code and the reference.'),
-    'C20': dict(level='exploration',
-                technique='bounded stand-in: native exhaustive enumeration of domain member sequences against the rule written from the property statement',
-                claim='BOUNDED (exhaustive over the statement\'s own quantifier, not a proof of the code): all 9331 sequences of up to five members over the five standard names plus a foreign name are accepted iff they are a non-empty, strictly order-preserving, duplicate-free selection with the standard types - exactly 31 - and each accepted domain hashes to the reference value; 14 type substitutions at every position and a missing domain type are refused.',
-                note='verify_domain_type (try_fold over a HashMap lookup with closures and anyhow context) is outside Verus\' subset and CBMC did not finish on TypedDataBlob values; sequences longer than five are refused by pigeon-hole (a sixth member repeats a name or is foreign) - argued, not machine-checked. "Before anything is hashed" is not observable natively.'),
+    'C20': dict(level='model_checking',
+                technique='Kani/CBMC bounded contract harnesses on the real TypedDataBlob::verify_domain_type (member counts 0..6, symbolic names and types) plus native exhaustive enumeration of domain member sequences against the rule written from the property statement',
+                claim='BOUNDED (not an unbounded proof): for member counts 0, 1, 2 (quick; 3..6 in thorough) and every combination of member names (all ASCII strings of 3, 4, 7 or 17 bytes) and member types (ten kinds, widths symbolic) verify_domain_type accepts iff the members are a non-empty, order-preserving, duplicate-free selection of the five standard fields with their standard types, and it asks for the type named EIP712Domain (CBMC on the real function, Types::type_definition as callee contract). Native: all 9331 sequences of up to five members over the five standard names plus a foreign name are accepted iff they are one of the 31 well-formed domains and each accepted domain hashes to the reference value; 14 type substitutions and near-miss names at every position and a missing domain type are refused.',
+                note='Member counts above 6 are not machine-checked (a seventh member repeats a name or is foreign: pigeon-hole, argued); names of lengths other than 3, 4, 7, 17 are represented by the 3-byte names (a name of a different length cannot equal a standard name; String == &str compares lengths first - std, assumed). Types::type_definition (HashMap lookup) is a callee contract in the Kani harnesses and exercised natively. "Before anything is hashed" (call order in compute) is not observable natively and compute itself does not go through CBMC (serde_json::Map).',
+                jobs=8),
     'C18': dict(level='proof',
                 technique='Kani/CBMC contracts on the real Prefix::from_str (per digit count, symbolic content) and Prefix::matches (all prefix lengths x all addresses); native process-level stand-in for the search and threads',
                 claim='Prefix::from_str is proved for 0..5 arbitrary ASCII characters after 0x (quick; 6, 7, 8, 40, 41 in thorough) and for all short texts without 0x: accepted iff hexadecimal in either case, digit values exact, never panics; Prefix::matches is proved for prefix lengths 0-3 and 19-21 bytes (+ nibble) in quick, every length 0..22 in thorough, against all 2^160 addresses. That the generator prints a phrase whose own account matched, for every thread interleaving, is NOT decidable by a sequential contract verifier: covered only by the bounded native CLI stand-in (27 prefixes x 4 thread counts).',
